@@ -27,7 +27,7 @@ from ctmverif import pipeline
 RULE = ('references: trees of 1-3 levels with 2-7 leaves (single-child '
         'chains, single top node), 16-30 genes, 8-12 cells per leaf, '
         'cluster-specific on/off genes with Poisson noise (separable); '
-        'encodings dense/csr; bootstrap factors 2/n..1, 1-10 iterations, '
+        'encodings dense/csr; bootstrap factors 2/n..1, 1-10 iterations (every 4th case one run with 255/256/257, thorough: one with 65536: vote-counter width borders), '
         'several seeds, query gene order independent of the reference, 0-2 '
         'genes dropped, 0-2 foreign genes added; node names reused across '
         'levels in different lineages (a child named like a later-sorted node '
@@ -141,6 +141,12 @@ def gen_case(rng, i, big_query=0):
             'normalization': 'log2CPM', 'flatten': False,
             'drop_level': None, 'encoding': 'dense',
             'bootstrap_factor_lookup': None})
+    if i % 4 == 1:
+        # aimed family: iteration counts at the borders of the vote counter's
+        # integer width (a unanimous centroid collects exactly
+        # bootstrap_iteration votes, the largest value the counter must hold)
+        runs[0]['bootstrap_iteration'] = (
+            65536 if big_query else rng.choice([255, 256, 257]))
     # option combinations: a per-level factor table written against the
     # taxonomy of the REFERENCE (every non-leaf level + 'None', sometimes the
     # leaf level too), alone and together with drop_level / flatten
